@@ -201,7 +201,7 @@ package cmd
 
 // stagedName(p): the name a file at p is staged under (its path relative to the current directory, slash-separated).
 // add is only ever called for files whose staged name is outside Goit's own directory (C17).
-//@ pred stagedName(p) := replaceAll(relPath(cwd(), p), "\\", "/")
+//@ pred stagedName(p) := relPath(cwd(), p)
 //@ func add
 //@   returns err
 //@   modifies store.Index.Entries, store.Index.Header, fs
